@@ -4,7 +4,7 @@ V = os.path.dirname(os.path.dirname(os.path.abspath(__file__)))
 rows = ["# Changes seeded by independent agents", "",
         "Each agent saw only the text of one property and a scratch worktree. `verify` = my own re-run on a scratch copy: "
         "baseline tests with the patch, demonstration with and without the patch. `checks` = result of the listed "
-        "checks against the patched scratch copy (first = as first run, later entries after strengthening; see notes).", "",
+        "checks against the patched scratch copy; where a later regression over several seeds exists (`tools/regress_seeded.sh`), its result replaces that of the first run. A change counts as caught when at least one listed check reports it.", "",
         "| id | property | what the change does | needs | verify | checks |", "|---|---|---|---|---|---|"]
 for d in sorted(glob.glob(os.path.join(V, "seeded", "S-*"))):
     sid = os.path.basename(d)
@@ -16,7 +16,20 @@ for d in sorted(glob.glob(os.path.join(V, "seeded", "S-*"))):
     ver = v.get("verification", {})
     vs = "tests: %s; demo with patch exit %s, without exit %s" % (ver.get("tests_with_patch", "?").split(" in ")[0],
                                                                  ver.get("demo_with_patch", ["?"])[0], ver.get("demo_without_patch", ["?"])[0])
-    ch = "; ".join("%s: %s" % (k, str(x)[:120]) for k, x in sorted(v.get("checks", {}).items()))
+    # the latest regression (tools/regress_seeded.sh, stored per seed) overrides the result of the first run
+    checks = dict(v.get("checks", {}))
+    latest = {}
+    for k, x in v.get("other_seeds", {}).items():
+        prop_tier, _, seed = k.rpartition("/seed")
+        latest.setdefault(prop_tier, {})[seed] = x
+    for prop_tier, per_seed in latest.items():
+        if all(str(x).startswith("caught") for x in per_seed.values()):
+            detail = checks.get(prop_tier, "")
+            checks[prop_tier] = "caught at seeds %s%s" % (", ".join(sorted(per_seed)), (" " + detail[detail.index("["):])
+                                                          if str(detail).startswith("caught") and "[" in detail else "")
+        else:
+            checks[prop_tier] = "; ".join("seed %s: %s" % (sd, str(x)[:60]) for sd, x in sorted(per_seed.items()))
+    ch = "; ".join("%s: %s" % (k, str(x)[:140]) for k, x in sorted(checks.items()))
     if v.get("first_result"):
         ch = "first run: " + v["first_result"] + " -> now " + ch
     summ = str(m.get("summary", ""))[:260].replace("|", "/").replace("\n", " ")
